@@ -33,8 +33,10 @@ def malformed(rng):
     if r < 0.6:
         return rng.choice(['4', '16', '8.', '2..', '3%2', '0']), 'bare-duration'
     if r < 0.75:
-        return rng.choice(['*clef', '*k[', '*M', '*M4', '*MM', '*staff', '*k[f#', '*met(', '*xywh-1:', '*Trd', '*rscale:']), 'truncated'
-    return rng.choice(['4c|', '=1z', '4cc4', '*clefG2x', '8r4', '4c=', '*M4/4x', '=||z', '2e#|', '4c 4e|', '16gg*', '4d!']), 'garbage-suffix'
+        return rng.choice(['*clef', '*k[', '*M', '*M4', '*MM', '*staff', '*k[f#', '*met(', '*xywh-1:', '*Trd', '*rscale:',
+                           '*xywh', '*xywh-1', '*xywh-1:10,20,30', '*xywh-1:a,2,3,4', '*>[A,', '*tb']), 'truncated'
+    return rng.choice(['4c|', '=1z', '4cc4', '*clefG2x', '8r4', '4c=', '*M4/4x', '=||z', '2e#|', '4c 4e|', '16gg*', '4d!',
+                       '2r$', '2rx', '2r:', '8rL', '4rT', 'rit.', '4c 4e $']), 'garbage-suffix'
 
 
 def outcome(fn, text):
